@@ -251,13 +251,7 @@ theorem update_spec (c : Cache α) (s : Net) (a : α) (ds : List Nat) (st : Nat)
 theorem delete_spec (c : Cache α) (s : Net) (a : Option α) (ds : Option (List Nat))
     (hc : Coherent c) (hne : ¬ (a = none ∧ ds = none)) :
     ∃ c', deleteRouterInfo c s a ds = .ok c' ∧ Coherent c' ∧
-      ∀ s' d', pget c' s' d' =
-        match a, ds with
-        | some a, some (x :: xs) =>
-            if s' = s ∧ d' ∈ (x :: xs) ∧ pget c s d' = some a then none else pget c s' d'
-        | some a, _ => if s' = s ∧ pget c s d' = some a then none else pget c s' d'
-        | none, some ds => if s' = s ∧ d' ∈ ds then none else pget c s' d'
-        | none, none => pget c s' d' := by
+      ∀ s' d', pget c' s' d' = forgetMap (pget c) s a ds s' d' := by
   unfold deleteRouterInfo
   cases a with
   | none =>
@@ -274,6 +268,7 @@ theorem delete_spec (c : Cache α) (s : Net) (a : Option α) (ds : Option (List 
         stripAll_spec s ds _ c hc (nodup_otherRouters c s none ds) hall
       refine ⟨c1, e1, hc1, ?_⟩
       intro s' d'
+      simp only [forgetMap]
       rw [hP1]
       by_cases e0 : s' = s ∧ d' ∈ ds
       · obtain ⟨rfl, ed⟩ := e0
@@ -297,8 +292,8 @@ theorem delete_spec (c : Cache α) (s : Net) (a : Option α) (ds : Option (List 
         obtain ⟨ri, hri, _⟩ := (hc s d a).mp h
         rw [hex] at hri; cases hri
       cases ds with
-      | none => simp [hna]
-      | some l => cases l <;> simp [hna]
+      | none => simp [forgetMap, hna]
+      | some l => cases l <;> simp [forgetMap, hna]
     | some ri =>
       simp only
       obtain ⟨c1, e1, hP1, hR1, hC1⟩ := stripRouter_spec s (effectiveDnets ds ri) a c ri hc hex
@@ -317,10 +312,10 @@ theorem delete_spec (c : Cache α) (s : Net) (a : Option α) (ds : Option (List 
         intro d'
         rw [mem_keys_items, hcred]; simp
       cases ds with
-      | none => simp only [effectiveDnets, hall]
+      | none => simp only [effectiveDnets, hall, forgetMap]
       | some l =>
         cases l with
-        | nil => simp only [effectiveDnets, hall]
+        | nil => simp only [effectiveDnets, hall, forgetMap]
         | cons x xs => rfl
 
 end BacVerif.RouterCache
